@@ -11,7 +11,7 @@ Definition got (t : transcript) : list Z :=
 
 (* a server-streaming call: the handler sends [ms] one by one, each send meeting the client's
    RecvMsg (the reader keeps up), then the client cancels *)
-Definition stream_scn (ms : list Z) : scenario := mkScn ServerStream 0 false (map S2C ms ++ [Cancel]).
+Definition stream_scn (ms : list Z) : scenario := mkScn ServerStream 0 [] CtxLive (map S2C ms ++ [Cancel false]).
 
 Definition wrap_stream (ms : list Z) : list Z := got (wrap_run fx_now (stream_scn ms)).
 
